@@ -26,11 +26,12 @@ VARIABLES l,
           scrapAt,   \* obj -> line at which it was discarded by a failure
           startAt,   \* tx -> line of its latest WithStart
           wrote,     \* tx -> set of objects it wrote in this transaction
+          dead,      \* objects written by a transaction whose abort has returned
           kf
-vars == <<l, owner, inCb, scrapAt, startAt, wrote, kf>>
+vars == <<l, owner, inCb, scrapAt, startAt, wrote, dead, kf>>
 
 Empty == <<>>
-TraceInit == l = 1 /\ owner = Empty /\ inCb = Empty /\ scrapAt = Empty /\ startAt = Empty /\ wrote = Empty /\ kf = {}
+TraceInit == l = 1 /\ owner = Empty /\ inCb = Empty /\ scrapAt = Empty /\ startAt = Empty /\ wrote = Empty /\ dead = {} /\ kf = {}
 
 E == Trace[l]
 IsEvent(name) == l <= Len(Trace) /\ Trace[l].ev = name /\ l' = l + 1
@@ -39,11 +40,11 @@ Drop(f, K) == [x \in DOMAIN f \ K |-> f[x]]
 Get(f, k, d) == IF k \in DOMAIN f THEN f[k] ELSE d
 
 TNew == IsEvent("NewBehaviour") /\ owner' = Empty /\ inCb' = Empty /\ scrapAt' = Empty /\ startAt' = Empty
-        /\ wrote' = Empty /\ UNCHANGED kf
+        /\ wrote' = Empty /\ dead' = {} /\ UNCHANGED kf
 
-TWithStart == IsEvent("WithStart") /\ startAt' = Put(startAt, E.t, l) /\ UNCHANGED <<owner, inCb, scrapAt, wrote, kf>>
-TCreated   == IsEvent("Created") /\ UNCHANGED <<owner, inCb, scrapAt, startAt, wrote, kf>>
-TRelease   == IsEvent("Release") /\ UNCHANGED <<owner, inCb, scrapAt, startAt, wrote, kf>>
+TWithStart == IsEvent("WithStart") /\ startAt' = Put(startAt, E.t, l) /\ UNCHANGED <<owner, inCb, scrapAt, wrote, dead, kf>>
+TCreated   == IsEvent("Created") /\ UNCHANGED <<owner, inCb, scrapAt, startAt, wrote, dead, kf>>
+TRelease   == IsEvent("Release") /\ UNCHANGED <<owner, inCb, scrapAt, startAt, wrote, dead, kf>>
 
 \* isolation: nobody else's callback runs on an object between its first write
 \* access by a transaction and that transaction's commit; a discarded object
@@ -53,19 +54,22 @@ TCbEnter ==
   /\ Get(owner, E.obj, E.t) = E.t
   /\ (E.ro = 0 => \A u \in DOMAIN inCb : inCb[u] = E.obj => u = E.t)
   /\ (E.obj \in DOMAIN scrapAt => scrapAt[E.obj] > Get(startAt, E.t, 0))
+  \* once the abort of the transaction that wrote it has returned, the object is never handed out again
+  \* (not even to an access that had looked it up before)
+  /\ E.obj \notin dead
   /\ inCb' = Put(inCb, E.t, E.obj)
   /\ owner' = IF E.ro = 0 THEN Put(owner, E.obj, E.t) ELSE owner
   /\ wrote' = IF E.ro = 0 THEN Put(wrote, E.t, Get(wrote, E.t, {}) \cup {E.obj}) ELSE wrote
-  /\ UNCHANGED <<scrapAt, startAt, kf>>
+  /\ UNCHANGED <<scrapAt, startAt, dead, kf>>
 
 TCbExit ==
   /\ IsEvent("CbExit")
   /\ E.t \in DOMAIN inCb /\ inCb[E.t] = E.obj
   /\ inCb' = Drop(inCb, {E.t})
   /\ scrapAt' = IF E.err = 1 /\ E.obj \notin DOMAIN scrapAt THEN Put(scrapAt, E.obj, l) ELSE scrapAt
-  /\ UNCHANGED <<owner, startAt, wrote, kf>>
+  /\ UNCHANGED <<owner, startAt, wrote, dead, kf>>
 
-TWithReturn == IsEvent("WithReturn") /\ UNCHANGED <<owner, inCb, scrapAt, startAt, wrote, kf>>
+TWithReturn == IsEvent("WithReturn") /\ UNCHANGED <<owner, inCb, scrapAt, startAt, wrote, dead, kf>>
 
 \* commit / abort: the write locks are released; what a failed transaction
 \* wrote is discarded
@@ -77,10 +81,11 @@ TCommit ==
                      THEN [o \in DOMAIN scrapAt \cup W |-> IF o \in DOMAIN scrapAt THEN scrapAt[o] ELSE l]
                      ELSE scrapAt
        /\ wrote' = Drop(wrote, {E.t})
+       /\ dead' = IF E.failed = 1 THEN dead \cup W ELSE dead
   /\ UNCHANGED <<inCb, startAt, kf>>
 
 \* after commit or abort every lock is released: later transactions make progress
-TProbe == IsEvent("Probe") /\ E.ok = 1 /\ UNCHANGED <<owner, inCb, scrapAt, startAt, wrote, kf>>
+TProbe == IsEvent("Probe") /\ E.ok = 1 /\ UNCHANGED <<owner, inCb, scrapAt, startAt, wrote, dead, kf>>
 
 \* (no action consumes "Stuck": readers never block, every access returns)
 
